@@ -199,4 +199,27 @@ def upgradeReads : Bytes → List Nat → List Bytes × Bytes
     | none => ([], l)
     | some (out, l') => let r := upgradeReads l' ms; (out :: r.1, r.2)
 
+/-- the network as the handed-over stream sees it: the segments the head loop did not read; a
+`read(max_bytes)` returns at most `max_bytes` of the first one and leaves the rest in place
+(no segment left = nothing arrives: the empty result stands for "the read does not return") -/
+def netRead (segs : List Bytes) (m : Nat) : Bytes × List Bytes :=
+  match segs with
+  | [] => ([], [])
+  | s :: rest => if m < s.length then (s.take m, s.drop m :: rest) else (s, rest)
+
+/-- one `read(max_bytes)` of the stream handed to the caller: leading data first (`upgradeRead`),
+otherwise straight through to the network: (result, leading data left, network left) -/
+def handoverRead (leading : Bytes) (segs : List Bytes) (m : Nat) : Bytes × Bytes × List Bytes :=
+  match upgradeRead leading m with
+  | some (out, l') => (out, l', segs)
+  | none => let r := netRead segs m; (r.1, leading, r.2)
+
+/-- successive reads of the handed-over stream, through the leading data and on into the live connection -/
+def handoverReads : Bytes → List Bytes → List Nat → List Bytes × Bytes × List Bytes
+  | l, segs, [] => ([], l, segs)
+  | l, segs, m :: ms =>
+    let r := handoverRead l segs m
+    let q := handoverReads r.2.1 r.2.2 ms
+    (r.1 :: q.1, q.2.1, q.2.2)
+
 end Httpcore.H1
